@@ -5,6 +5,8 @@ patch there, run `python -m ubcheck <props>` with UBCHECK_SRC pointing at it and
 directory, record exit codes and the rules that fired, remove the worktree.
 usage: seeded.py [--dir DIR] [--props C01,C02|all] [ids...]"""
 import json, os, subprocess, sys, tempfile, shutil, argparse
+sys.path.insert(0, os.path.dirname(os.path.abspath(__file__)))
+from _corpus import tree_with_patch, remove
 
 ap = argparse.ArgumentParser()
 ap.add_argument("--dir", default="/verif/seeded")
@@ -22,36 +24,27 @@ def one(sid):
     patch = os.path.join(d, "patch.diff")
     if not os.path.exists(patch):
         return None
-    wt = tempfile.mkdtemp(prefix="ubseed_")
     out = tempfile.mkdtemp(prefix="ubout_")
-    os.rmdir(wt)
-    for attempt in range(8):  # concurrent `git worktree add` calls can collide on the administrative files
-        if subprocess.run(["git", "-C", "/repo", "worktree", "add", "-q", "--detach", wt, "HEAD"], capture_output=True).returncode == 0:
-            break
-        import time as _t
-        _t.sleep(0.3 * (attempt + 1))
-    else:
-        raise RuntimeError("git worktree add failed")
+    wt, envx, base, err = tree_with_patch(d, "ubseed_")
     try:
-        r = subprocess.run(["git", "-C", wt, "apply", patch], capture_output=True, text=True)
-        if r.returncode:
-            return f"{sid} PATCH DOES NOT APPLY {r.stderr.strip()[:200]}"
+        if err:
+            return f"{sid} PATCH DOES NOT APPLY {err}"
         own = sid.split("-")[0]
         props = allprops if a.props == "all" else ([own] if a.props == "own" else a.props.split(","))
         res = {}
         for p in props:
             if p not in allprops:
                 res[p] = "no-check"; continue
-            env = dict(os.environ, UBCHECK_SRC=os.path.join(wt, "src"), UBCHECK_OUT=out)
+            env = dict(os.environ, UBCHECK_SRC=os.path.join(wt, "src"), UBCHECK_OUT=out, **envx)
             r = subprocess.run(["/venv/bin/python", "-m", "ubcheck", p], cwd="/verif", env=env, capture_output=True, text=True)
             rules = sorted({w.split("=")[1] for line in r.stdout.splitlines() if "rule=" in line for w in line.split() if w.startswith("rule=")})
             res[p] = f"rc={r.returncode} {','.join(rules)}"
             if r.returncode == 2:
                 res[p] += " " + " ".join(l for l in r.stdout.splitlines() if l.startswith("ANALYSIS-ERROR"))[:300]
         flagged = [p for p, v in res.items() if v.startswith("rc=1")]
-        return f"{sid} " + ("CAUGHT by " + ",".join(flagged) if flagged else "MISSED") + " " + json.dumps(res)
+        return f"{sid} " + ("CAUGHT by " + ",".join(flagged) if flagged else "MISSED") + (f" [base {base}]" if base else "") + " " + json.dumps(res)
     finally:
-        subprocess.run(["git", "-C", "/repo", "worktree", "remove", "--force", wt])
+        remove(wt)
         shutil.rmtree(out, ignore_errors=True)
 
 
